@@ -76,6 +76,8 @@ type scenario struct {
 	build  func(t fataler) (*World, error) // world with prefix history applied; the NEXT step of w.Pairs[target] is observed
 	target int
 	reorg  bool
+	// between runs after the observed (possibly faulted) step and before the retries
+	between func(w *World)
 }
 
 func buildWorld(t fataler, batch, conc, blocks int, decls ...*refmodel.Decl) (*World, error) {
@@ -229,6 +231,24 @@ func c02Scenarios() []scenario {
 			}
 			return w, err
 		}},
+		{name: "tx-with-receipts-reorg-to-empty-before-retry", reorg: true, build: func(t fataler) (*World, error) {
+			// two integrations on the source, so a fetched segment stays cached for a
+			// second read; the blocks the faulted step fetched are then replaced by
+			// empty ones before the retry (found by the thorough tier, fixed by 0998c18)
+			d := simpleTxDecl("txr", 1)
+			d.Block = append(d.Block, refmodel.BlockField{Name: "tx_status", Column: "tx_status"})
+			d.Columns = append(d.Columns, refmodel.Column{Name: "tx_status", Type: "int"})
+			w, err := buildWorld(t, 2, 1, 6, d, xferDecl("xfer", 1, false))
+			if err == nil {
+				stepN(w, 0, 1)
+			}
+			return w, err
+		}, between: func(w *World) {
+			nd := w.Sources[0].Node
+			nd.Lock()
+			nd.Chain.Reorg(3, [][]sim.Tx{nil, nil, nil, nil, nil})
+			nd.Unlock()
+		}},
 	}
 }
 
@@ -311,6 +331,9 @@ func runFaulted(sc scenario, fp *faultPoint) (dbOps []string, rpcOps []string, v
 	}
 	if fp == nil && r.Err != nil {
 		return dbOps, rpcOps, "INCONCLUSIVE fault-free run of the scenario failed: " + r.Err.Error(), false
+	}
+	if sc.between != nil {
+		sc.between(w)
 	}
 	// the fault clears: retrying completes as if it had not happened
 	for i := 0; i < 40; i++ {
